@@ -115,3 +115,19 @@ func init() {
 		Assumptions: []string{"lexical conventions not fixed by the documentation are taken from the code and listed in DESIGN.md 4.5 (e.g. `--` is the end-of-options token only before a space or the end of the string)"},
 	})
 }
+
+func init() {
+	addProp(&propDef{
+		ID: "C04", Check: "route", Level: "exploration",
+		Rule: "command trees: the shapes listed under bounds (depth <=2 quick / <=3 thorough, fan-out 2, 1-2 aliases, one alias equal to a value used at another level) x every assignment of the per-level declaration/spec pairs {none, `[-f]`, `X`, `[-f] X`, `[X]`, `-f X...`} x every target command x every alias combination along its path x every combination of per-level argvs from {(empty), -f, x, -f x, x y, -z} that do not name a direct sub-command; each invocation runs on a freshly built application; the reference router splits at the first token naming a direct child, validates the prefix with the reference matcher and recurses; judged: exactly the addressed Action ran once, each level holds its own tokens, or the first rejecting level yields an error and nothing ran; non-trivial = invocations reaching depth >= 1",
+		Assumptions: []string{"per-level validation uses the reference semantics of DESIGN.md section 4"},
+	})
+}
+
+func init() {
+	addProp(&propDef{
+		ID: "C07", Check: "policy", Level: "fault_enumeration",
+		Rule: "command trees of the bound with Before/After/Action on every level x spec assignments over {`[-f]`, `[-f] X`, `[-i] [-o]` (int and string options), `N` (int argument)} x every target x per-level argvs covering every rejection kind (spec mismatch at each level, undeclared option, missing value, unconvertible value for an int option / argument) and accepted controls x every assignment of {ContinueOnError, ExitOnError, PanicOnError} to the levels of the path, set inside each command's initializer; judged against the reference router: rejected => no hook and no Action ran, `Error:` and the usage line of the rejecting command on the error stream, then exactly the policy of that command; accepted => hooks in nesting order, nil, no exit, no panic; non-trivial = rejected invocations",
+		Assumptions: []string{"per-level validation uses the reference semantics of DESIGN.md section 4 plus strconv for int containers"},
+	})
+}
